@@ -187,6 +187,18 @@ class ListUnit(SeqUnit):
         return out
 
 
+    def replay(self, ctx, data):
+        """a rejected recorded history is re-executed on the real object (not only re-validated)"""
+        if data.get("kind") == "trace" and data.get("expected") and data.get("trace"):
+            tr = data["trace"]
+            stim = lambda e: {k: v for k, v in e.items() if k not in ("res", "st")}
+            m = {"sut": data["sig"].split(":")[0], "flow": "trace", "op": tr[-1].get("op"), "stimulus": stim(tr[-1]),
+                 "cfg": tr[0]["cfg"], "path": [tr[0]] + [{"stim": stim(e)} for e in tr[1:]],
+                 "expected": [{"res": e.get("res"), "st": e.get("st")} for e in data["expected"]], "observed": {}}
+            return super().replay(ctx, {"kind": "path", "sut": m["sut"], "mismatch": m})
+        return super().replay(ctx, data)
+
+
 def _short(x, n=700):
     s = json.dumps(x)
     return s if len(s) <= n else s[:n] + "..."
